@@ -6,7 +6,7 @@ from ..evalfn import SELF
 from ..sym import canon
 from . import core_rules
 from .algo_equiv import check_equiv
-from .common import ALGOS, CORE, G, Roles, plain, short
+from .common import own_event, ALGOS, CORE, G, Roles, plain, short
 
 TARGET = ("param", "target")
 
@@ -84,7 +84,7 @@ def out_of_bounds(chk):
     chk.site()
     temp = ("fld", TARGET, "temp", 0)
     targets = ("sub", temp, ("str", "weights"))
-    rets = [e for e in S.events if e.kind == "return" and e.chain == (fi.qual,)]
+    rets = [e for e in S.events if e.kind == "return" and tuple(e.chain) == (fi.qual,)]
     first = [e for e in rets if sym.lit_holds(sym.sat(e.guard), ("in", ("str", "weights"), temp), False)]
     ok = bool(first) and canon(first[0].value) == canon(sym.TRUE)
     chk.ob("C13.R5", ok, ALGOS, host, "no-weights-true", "without target weights the algo reports True", where=fi.where)
